@@ -17,7 +17,7 @@ claimed = {
  "C13": ("stop-responsiveness: each loop function started in an arbitrary state and stopped at an arbitrary instant returns without an uninterruptible wait > 1 s, without spinning (bounded number of interpreter steps after the stop request) and never blocks for ever; interleavings: pairs of sequencer activities (production step, header/data submission body, DA-includer wake-up) on one Manager under every interleaving at the granularity of durable store writes and DA submissions (bounded preemptions, lock waits) keep the C01/C06/C07 post-conditions", "data races (memory-access granularity) are outside reach of this technique and not claimed; interleavings finer than store/DA operations, more than two activities at once and the P2P/sync/retrieve loops in combination are outside the bound"),
  "C14": ("all histories of up to 2 (thorough: 3) arbitrary mutators with reopen/crash points on the real DefaultStore over a datastore double, every reader compared with a map model; symbolic execution of the real code from go/ssa, z3 decides every path", "ds.Batching contract assumed (atomic batch, durable put); heights used as keys picked from {1,10,2^40}; badger outside"),
  "C15": ("two instances of the real KVExecutor driven with the same ExecuteTxs calls (incl. replays of earlier blocks) and different finalize (any height, also ahead of execution)/mempool/init/reopen schedules return identical state roots; rejected blocks change nothing", "transaction menu of 8 concrete strings; 2 blocks + one third call"),
- "C16": ("client-side size filter of the real API.SubmitWithOptions executed symbolically against a reference model for all blob lists within the bound and every 64-bit limit", "only the size-filter clause is claimed: wire error identity and JSON payload equality are outside reach (go-jsonrpc/encoding/json are reflection driven)"),
+ "C16": ("client-side size filter of the real API.SubmitWithOptions against a reference model for all blob lists within the bound and every 64-bit limit; classification: the node's real SubmitWithHelpers/RetrieveWithHelpers on a direct and on a proxied instance (real client wrappers, the wire as the contract 'same message text, no identity') of the same backing DA layer give the same status, ids and blobs for every error the DA interface defines, plain or wrapped; natively the replay goes through the real JSON-RPC client and server", "go-jsonrpc and encoding/json themselves are reflection driven and not executed by the engine: the wire is a stated contract validated by the native witness replays; JSON payload equality of ids/blobs is outside the claim"),
  "C17": ("the real lazy and normal aggregation loops on a symbolic clock with notifications at arbitrary instants: rate limit, service of notifications (incl. during a production), idle interval; the real AggregationLoop started at an arbitrary age of the last block: first block not before one block interval", "intervals 10/11/25(/40) units, duration grid; see evidence bounds"),
  "C19": ("the real ImportPrivateKey / LoadFileSystemSigner / ExportPrivateKey executed symbolically with Argon2id/AES-GCM/ed25519/JSON/file system as axiomatised uninterpreted functions: right passphrase loads a working, matching signer, any other passphrase fails, legacy files, corrupted fields, export-import migration (in place, over a legacy or foreign file); legacy derivation kernel total for passphrases of 0..40 bytes", "passphrases 0..3 bytes in the sealing harnesses; cryptographic primitives idealised (collision free, authentic), not executed"),
  "C20": ("the real based Sequencer.GetNextBatch / PersistentPendingTxs over every bounded DA content, size limit and restart schedule against the DA-ordered reference list", "open known findings C20-K1/K2; concrete DA heights"),
